@@ -169,3 +169,34 @@ R.contract(
     modifies=PI_GHOST + ["self._message", "self._current", "self._started",
                          "ANY.g_set", "ANY.g_joined"],
 ).defaults = {"reset_indicator": False}
+
+# ---- ProgressBar.clear(): blanking the line must not reset the throttle -------------------------------------------
+# (C16: "redraws caused by advancing are no closer together than the configured minimum interval" -- the interval is
+#  measured from the last write, whatever wrote; clear() writes, so the stamp may only move forward)
+R.shape("ProgressBar", _format="str?", _internal_format="str?", _format_line_count="int", _last_messages_length="int?")
+OVERWRITE_MODS = ["self._last_write_time", "self._write_count", "self._last_messages_length", "CLOCK",
+                  "self._io._stream.g_count", "self._io._stream.g_last", "self._io._stream.g_text"]
+R.contract(
+    PB + "_overwrite", params={"message": "str"},
+    ensures=["self._last_write_time == now()", "now() >= old(now())", "self._write_count == old(self._write_count) + 1"],
+    modifies=OVERWRITE_MODS, assumed=True,
+    note="_overwrite pads, moves the cursor, writes and stamps the time of the write (its bytes: bounded tier)",
+)
+R.contract(PB + "_set_real_format", params={"fmt": "str"},
+           ensures=["self._format is not None", "self._format_line_count >= 0"],
+           modifies=["self._format", "self._format_line_count"], assumed=True,
+           note="chooses the format text and counts its line breaks")
+R.contract(PB + "_determine_best_format", params={}, returns="str", modifies=[], assumed=True)
+R.contract(
+    PB + "clear", params={},
+    requires=["self._last_write_time <= now()", "self._format_line_count >= 0"],
+    ensures=[
+        # the throttle stamp never moves backwards, and it moves only when something was written
+        "self._last_write_time >= old(self._last_write_time)",
+        "implies(not self._should_overwrite, self._last_write_time == old(self._last_write_time) and "
+        "self._io._stream.g_count == old(self._io._stream.g_count))",
+        # clearing is not progress
+        "self._step == old(self._step) and self._max == old(self._max) and self._percent == old(self._percent)",
+    ],
+    modifies=OVERWRITE_MODS + ["self._format", "self._format_line_count"],
+)
